@@ -114,6 +114,23 @@ pub fn encode(frame: &RefFrame) -> Vec<u8> {
     }
 }
 
+/// The same data telegram framed with a variable-length header even where the fixed formats SD1
+/// (no data) / SD3 (8 data bytes) would do - legal on the wire, never produced by `encode`.
+pub fn encode_sd2(frame: &RefFrame) -> Vec<u8> {
+    let canonical = encode(frame);
+    let body: Vec<u8> = match canonical[0] {
+        SD1 => canonical[1..4].to_vec(),
+        SD3 => canonical[1..12].to_vec(),
+        _ => return canonical,
+    };
+    let le = body.len() as u8;
+    let mut out = vec![SD2, le, le, SD2];
+    out.extend_from_slice(&body);
+    out.push(sum(&body));
+    out.push(ED);
+    out
+}
+
 pub fn decode(buf: &[u8]) -> RefVerdict {
     if buf.is_empty() {
         return RefVerdict::Short {
